@@ -8,12 +8,16 @@ THEOREMS = [f"Nice.Props.C15.{t}" for t in (
     "C15_candidate_formula", "C15_candidate_range", "C15_type_pref_le", "C15_local_pref_value",
     "C15_local_pref_le", "C15_type_dominates", "C15_type_rank", "C15_pair_formula",
     "C15_pair_symmetric", "C15_pair_min_dominates", "C15_insert_sorted", "C15_recalc_sorted",
-    "C15_recalc_perm", "C15_list_sorted")]
+    "C15_recalc_perm", "C15_list_sorted")] + ["Nice.Props.C15TypePref.C15_model_type_preference_is_code"]
 TRUSTED = [
     "Lean 4 kernel; axioms propext, Classical.choice, Quot.sound only (audited every run)",
     "tools/extract.py: nice_candidate_ice_priority_full, nice_candidate_ice_local_preference_full, "
     "nice_candidate_ms_ice_local_preference_full, nice_candidate_pair_priority are REGENERATED from the C source's typed "
     "clang AST on every run; the theorems are about those regenerated definitions (translator additionally differential-tested)",
+    "nice_candidate_ice_type_preference is REGENERATED too (Gen.ice_type_preference; tools/extract.py FIELD_KERNELS + FIELD_SUBST: "
+    "candidate->type, candidate->transport and the test `c->turn->type == NICE_RELAY_TYPE_TURN_UDP` become parameters, each textual "
+    "substitution must match the current source exactly or extraction fails closed) and the model's typePreference, about which the "
+    "ranking theorems are stated, is PROVED equal to it for every candidate and flag combination (Props/C15TypePref)",
     "hand-written: the type/transport switches of candidate.c and the check-list operations (Nice/Model/Prio.lean), tied by "
     "the kern_drv `prio` and `plist` streams (real nice_candidate_ice_priority with a scripted interface list; real "
     "conn_check_compare + g_slist_insert_sorted/g_slist_sort)",
